@@ -41,7 +41,7 @@ const rule = "sequential: each case is one operation sequence (10-200 ops over <
 func main() {
 	logrus.SetLevel(logrus.PanicLevel)
 	log.L.Logger.SetLevel(logrus.PanicLevel)
-	vf.Main("C08", "exploration", rule, 40, 800, body)
+	vf.Main("C08", "exploration", rule, 40, 600, body)
 }
 
 func body(r *vf.Run) {
@@ -82,7 +82,7 @@ func seqPhase(r *vf.Run) {
 	work, ram, done := recfs.RamDir(r.Scratch)
 	defer done()
 	r.Set("sequential_scratch_on_tmpfs", ram)
-	n := r.N(150, 5000)
+	n := r.N(150, 2000)
 	workers := 4
 	var next atomic.Int64
 	var wg sync.WaitGroup
